@@ -318,6 +318,10 @@ class BeltStore(Store):
 
             # 8) Trigger any other pending reservations
             self._trigger_reserve_get(None)
+            # 9) the released item waits at the exit again: let the conveyor re-examine whether it is
+            #    stalled (the same signal that announces an item reaching the exit)
+            if len(self.ready_items) > len(self.reservations_get) and not self.ready_item_event.triggered:
+                self.ready_item_event.succeed()
             return True
 
         # No such reservation
